@@ -1,5 +1,6 @@
 import JT.Proof.GoModel
 import JT.Proof.GoModelRT
+import JT.Proof.GoModelBcd
 /-!
 # C07 — encoders as they stand in the source
 
@@ -58,5 +59,24 @@ theorem source_fixed_layout_roundtrips (fuel : Nat) (j : Gen.GoFrame.jt808_JTMes
     (∀ t q : Gen.GoModel.model_T0x1206, ∃ body, Gen.GoModel.model_T0x1206_Encode fuel t = .ok body ∧
       ∃ r, Gen.GoModel.model_T0x1206_Parse fuel q { j with Body := body } = .ok (r, none) ∧ r.RespondSerialNumber = t.RespondSerialNumber ∧ r.Result = t.Result) :=
   ⟨fun t q => Gen.GoModel.P0x8001_roundtrip fuel t q j, fun t q => Gen.GoModel.P0x8801_roundtrip fuel t q j, fun t q => Gen.GoModel.P0x9102_roundtrip fuel t q j, fun t q => Gen.GoModel.P0x9105_roundtrip fuel t q j, fun t q => Gen.GoModel.P0x9207_roundtrip fuel t q j, fun t q => Gen.GoModel.T0x0001_roundtrip fuel t q j, fun t q => Gen.GoModel.T0x1003_roundtrip fuel t q j, fun t q => Gen.GoModel.T0x1206_roundtrip fuel t q j⟩
+
+/-- **Encoders that convert time strings, as translated from the source, never panic** — `utils.Time2BCD` (strip the
+separators, drop the century, pad to an even length, pack two characters per byte) is translated too and proved total for
+EVERY string, digits or not (loop invariants: even length, output buffer of half the length); with it the `Encode`
+methods of 0x9201, 0x9202, 0x9205, 0x9206 and 0x1005 return a byte string for every receiver once the loop budget exceeds
+the length of the time strings by two. -/
+theorem source_time_encoders_total (fuel : Nat) :
+    (∀ s : Bytes, s.length + 1 < fuel → ∃ b, Gen.GoModel.utils_Time2BCD fuel s = .ok b) ∧
+    (∀ t : Gen.GoModel.model_P0x9201, t.StartTime.length + 1 < fuel → t.EndTime.length + 1 < fuel → ∃ b, Gen.GoModel.model_P0x9201_Encode fuel t = .ok b) ∧
+    (∀ t : Gen.GoModel.model_P0x9202, t.DateTime.length + 1 < fuel → ∃ b, Gen.GoModel.model_P0x9202_Encode fuel t = .ok b) ∧
+    (∀ t : Gen.GoModel.model_P0x9205, t.StartTime.length + 1 < fuel → t.EndTime.length + 1 < fuel → ∃ b, Gen.GoModel.model_P0x9205_Encode fuel t = .ok b) ∧
+    (∀ t : Gen.GoModel.model_P0x9206, t.StartTime.length + 1 < fuel → t.EndTime.length + 1 < fuel → ∃ b, Gen.GoModel.model_P0x9206_Encode fuel t = .ok b) ∧
+    (∀ t : Gen.GoModel.model_T0x1005, t.StartTime.length + 1 < fuel → t.EndTime.length + 1 < fuel → ∃ b, Gen.GoModel.model_T0x1005_Encode fuel t = .ok b) :=
+  ⟨fun s hs => ⟨_, Gen.GoModel.Time2BCD_ok fuel s hs⟩,
+   fun t h1 h2 => (Go.X.isOk_iff _).mp (Gen.GoModel.P0x9201_Encode_total fuel t h1 h2),
+   fun t h1 => (Go.X.isOk_iff _).mp (Gen.GoModel.P0x9202_Encode_total fuel t h1),
+   fun t h1 h2 => (Go.X.isOk_iff _).mp (Gen.GoModel.P0x9205_Encode_total fuel t h1 h2),
+   fun t h1 h2 => (Go.X.isOk_iff _).mp (Gen.GoModel.P0x9206_Encode_total fuel t h1 h2),
+   fun t h1 h2 => (Go.X.isOk_iff _).mp (Gen.GoModel.T0x1005_Encode_total fuel t h1 h2)⟩
 
 end JT.C07
